@@ -3,6 +3,7 @@ package parser
 import (
 	"encoding/xml"
 	"io"
+	"strings"
 
 	"github.com/ChrisTrenkamp/xsel/node"
 	"golang.org/x/net/html/charset"
@@ -90,6 +91,8 @@ type xmlParser struct {
 	// one token of lookahead, read while merging character data
 	peeked    xml.Token
 	peekedErr error
+	// number of open elements
+	depth int
 }
 
 func (x *xmlParser) nextToken() (xml.Token, error) {
@@ -133,11 +136,13 @@ func (x *xmlParser) Pull() (node.Node, bool, error) {
 		case xml.StartElement:
 			x.namespaces = createXmlNamespaces(n.Attr)
 			x.attrs = createXmlAttrs(n.Attr)
+			x.depth++
 			return XmlElement{
 				space: n.Name.Space,
 				local: n.Name.Local,
 			}, false, nil
 		case xml.EndElement:
+			x.depth--
 			return nil, true, nil
 		case xml.CharData:
 			// Adjacent character data (text, CDATA sections) is one text node.
@@ -153,6 +158,12 @@ func (x *xmlParser) Pull() (node.Node, bool, error) {
 
 				x.peeked, x.peekedErr = xml.CopyToken(next), err
 				break
+			}
+
+			if x.depth <= 0 && strings.TrimLeft(value, " \t\r\n") == "" {
+				// White space between the prolog, the document element and
+				// the epilog is not part of the data model.
+				continue
 			}
 
 			return XmlCharData{
